@@ -388,7 +388,6 @@ func c10PortClass(p uint16) string {
 // transports, a liveness stand-in, extra phantom generations, and the package's detector channel pointed at an
 // in-process RESP server.
 func c10NewStation(t *testing.T) (*RegistrationManager, *kit.FakeRedis) {
-	os.Setenv("PHANTOM_SUBNET_LOCATION", "./test/phantom_subnets.toml")
 	fr, err := kit.NewFakeRedis("127.0.0.1:0")
 	if err != nil {
 		t.Fatal(err)
@@ -399,7 +398,12 @@ func c10NewStation(t *testing.T) (*RegistrationManager, *kit.FakeRedis) {
 	if _, err := client.Ping(context.Background()).Result(); err != nil {
 		t.Fatalf("infrastructure: stand-in redis: %v", err)
 	}
+	return c10NewManager(t), fr
+}
 
+// c10NewManager builds the registration manager alone; the package's detector channel is left as it is.
+func c10NewManager(t *testing.T) *RegistrationManager {
+	os.Setenv("PHANTOM_SUBNET_LOCATION", "./test/phantom_subnets.toml")
 	rm := NewRegistrationManager(&RegConfig{EnableIPv4: true, EnableIPv6: true, ConnectingStats: c10ConnStats{}})
 	if rm == nil {
 		t.Fatal("infrastructure: NewRegistrationManager returned nil")
@@ -433,7 +437,7 @@ func c10NewStation(t *testing.T) (*RegistrationManager, *kit.FakeRedis) {
 	rm.PhantomSelector.AddGeneration(2002, &phantoms.SubnetConfig{WeightedSubnets: []*pb.PhantomSubnets{sub(1, true, "fd00::/8", "2001:0:0:1::/64")}})
 	rm.PhantomSelector.AddGeneration(2003, &phantoms.SubnetConfig{WeightedSubnets: []*pb.PhantomSubnets{sub(1, true, "203.0.113.0/24")}})
 
-	return rm, fr
+	return rm
 }
 
 // ---- the driver -------------------------------------------------------------------------------------------
